@@ -214,8 +214,7 @@ func (x *runB) settle() ([]sockTask, bool, *core.Violation) {
 func (x *runB) retire(c *bcli) {
 	c.dead = true
 	if c.conn != nil {
-		c.conn.Close()
-		c.closed = true
+		c.closeRST()
 	}
 	if c.hasID {
 		x.f.a.SocksClientClose(int32(c.id))
@@ -794,7 +793,7 @@ func (x *runB) opPF(op OpB) (*core.Violation, string) {
 	if id == 0 {
 		id = 1
 	}
-	ln, err := net.Listen("tcp4", "127.0.0.1:0")
+	ln, err := core.ListenLoopback("tcp4")
 	if err != nil {
 		return nil, "no-port"
 	}
@@ -821,11 +820,16 @@ func (x *runB) opPF(op OpB) (*core.Violation, string) {
 	}()
 	sent := 0
 	for _, ch := range op.Chunks {
-		f.dispatch(cbRead(id, typeClient, ch))
+		// the callback writes the chunk synchronously; read at the same time so that a chunk larger
+		// than the socket buffers cannot block the callback for ever
+		dispatched := make(chan struct{})
+		go func(ch []byte) { f.dispatch(cbRead(id, typeClient, ch)); close(dispatched) }(ch)
+		defer func() { <-dispatched }()
 		if target == nil {
 			ln.(*net.TCPListener).SetDeadline(time.Now().Add(readBound))
 			target, err = ln.Accept()
 			if err != nil {
+				<-dispatched
 				f.dispatch(remove)
 				return core.V("b|pf|a2t|target-not-dialled", "READ callback (type client) for forward %08x: the forward target 127.0.0.1:%d was not connected: %v", id, tport, err), ""
 			}
@@ -835,11 +839,15 @@ func (x *runB) opPF(op OpB) (*core.Violation, string) {
 			target.SetReadDeadline(time.Now().Add(readBound))
 			n, err := readFull(target, buf)
 			if err != nil || !bytes.Equal(buf[:n], ch) {
+				target.Close() // unblocks a callback that is still writing
+				target = nil
+				<-dispatched
 				f.dispatch(remove)
 				return core.V("b|pf|a2t|bytes-differ|"+diffClass(buf[:n], ch), "forward %08x: agent sent %d bytes (after %d), the target read %d (%v), first difference at %d", id, len(ch), sent, n, err, firstDiff(buf[:n], ch)), ""
 			}
 			sent += len(ch)
 		}
+		<-dispatched
 	}
 	wantBack := []byte(nil)
 	if target != nil && op.TargetC {
